@@ -307,7 +307,7 @@ pub fn rand_valid_msg(r: &mut Rng) -> Msg {
     m
 }
 
-fn mutate(r: &mut Rng, mut b: Vec<u8>) -> Vec<u8> {
+pub fn mutate(r: &mut Rng, mut b: Vec<u8>) -> Vec<u8> {
     if b.is_empty() {
         return b;
     }
